@@ -122,4 +122,31 @@ theorem C16_from_plot_stores :
        ("self.result.Phi", "fdd.EFDD_mpe[0]#2"), ("self.result.forPlot", "fdd.EFDD_mpe[0]#3")] = true := by
   decide
 
+/-- **C11 / C06 (C07).** the `mpe` bodies store exactly these (target, value) pairs — the request in `run_params`, every
+    output of the extraction routine in the result field of the same name — each once, nothing else, no later
+    overwrite (strengthens `C11_*_stores`, `C06_fdd_mpe_wiring`, `C07_efdd_mpe_wiring`, which look a field up). -/
+theorem C11_mpe_stores_exact :
+    storedExactly "SSIdat" "mpe"
+      [("self.run_params.sel_freq", "sel_freq"), ("self.run_params.order_in", "order"), ("self.run_params.rtol", "rtol"),
+       ("self.result.Fn", "ssi.SSI_mpe[0]#0"), ("self.result.Xi", "ssi.SSI_mpe[0]#1"), ("self.result.Phi", "ssi.SSI_mpe[0]#2"),
+       ("self.result.order_out", "ssi.SSI_mpe[0]#3"), ("self.result.Fn_cov", "ssi.SSI_mpe[0]#4"),
+       ("self.result.Xi_cov", "ssi.SSI_mpe[0]#5"), ("self.result.Phi_cov", "ssi.SSI_mpe[0]#6")] = true
+    ∧ storedExactly "pLSCF" "mpe"
+      [("self.run_params.sel_freq", "sel_freq"), ("self.run_params.order_in", "order"), ("self.run_params.rtol", "rtol"),
+       ("self.result.Fn", "plscf.pLSCF_mpe[0]#0"), ("self.result.Xi", "plscf.pLSCF_mpe[0]#1"),
+       ("self.result.Phi", "plscf.pLSCF_mpe[0]#2"), ("self.result.order_out", "plscf.pLSCF_mpe[0]#3")] = true := by
+  decide
+
+theorem C06_mpe_stores_exact :
+    storedExactly "FDD" "mpe"
+      [("self.run_params.sel_freq", "sel_freq"), ("self.run_params.DF", "DF"),
+       ("self.result.Fn", "fdd.FDD_mpe[0]#0"), ("self.result.Phi", "fdd.FDD_mpe[0]#1")] = true
+    ∧ storedExactly "EFDD" "mpe"
+      [("self.run_params.sel_freq", "sel_freq"), ("self.run_params.DF1", "DF1"), ("self.run_params.DF2", "DF2"),
+       ("self.run_params.cm", "cm"), ("self.run_params.MAClim", "MAClim"), ("self.run_params.sppk", "sppk"),
+       ("self.run_params.npmax", "npmax"),
+       ("self.result.Fn", "fdd.EFDD_mpe[0]#0.reshape(-1)"), ("self.result.Xi", "fdd.EFDD_mpe[0]#1.reshape(-1)"),
+       ("self.result.Phi", "fdd.EFDD_mpe[0]#2"), ("self.result.forPlot", "fdd.EFDD_mpe[0]#3")] = true := by
+  decide
+
 end PV.WiringMpe
